@@ -655,6 +655,11 @@ class Translator:
             cands = [d for (a, d) in self.templ[base] if a == args]
             if not cands:
                 cands = [d for (a, d) in self.templ[base] if a[:len(args)] == args]
+            if not cands:
+                # template-template arguments have no name in clang's JSON (recorded as '{"kind": "TemplateArgument"}'):
+                # treat them as wildcards; still must be unique
+                cands = [d for (a, d) in self.templ[base]
+                         if len(a) >= len(args) and all(x == y or x.startswith('{"kind": "TemplateArgument"') for x, y in zip(a, args))]
             if len(cands) == 1: return self.record_ct(cands[0], fctx)
             if len(cands) > 1:
                 fail('ambiguous template spec %s (%d candidates)' % (name, len(cands)), node)
@@ -1449,6 +1454,10 @@ class Translator:
             if c == '<': depth += 1
             elif c == '>': depth -= 1
             elif depth == 0: out += c
+        if '(anon)' in pat:
+            # line-independent form for closure types: `f()::(anon)::operator()` matches every lambda inside f
+            # (narrow with the [substring of C name] part of @function)
+            out = re.sub(r'\(anon@[^)]*\)', '(anon)', out)
         return out == pat
 
     # ---------------------------------------------------------------- statements
